@@ -25,7 +25,7 @@ pub fn def() -> CheckDef {
 }
 
 fn info(tier: Tier) -> CheckInfo {
-    CheckInfo {
+    let mut ci = CheckInfo {
         id: "C09",
         level: "model_checking",
         rule: format!(
@@ -37,7 +37,9 @@ fn info(tier: Tier) -> CheckInfo {
             "a forged message from the right address with the right tid is indistinguishable from the peer's own answer and is not part of the oracle".into(),
             "default latency 10 ms; request timeout >= 500 ms".into(),
         ],
-    }
+    };
+    ci.rule.push_str(" Added: on a node whose ids are above 65536 the addressed peer sends ids congruent to the outstanding one modulo 65536 (or its two low bytes) before the genuine reply; a request to an unspecified address answered from another port.");
+    ci
 }
 
 #[derive(Clone, Debug)]
